@@ -160,6 +160,17 @@ public:
 	queue(size_t = 0);
 	virtual ~queue();
 	
+# if __cplusplus >= 201103L
+	/* member-wise copy would share (and release twice) the storage */
+	queue(const queue &) = delete;
+	queue &operator=(const queue &) = delete;
+# else
+    private:
+	queue(const queue &);
+	queue &operator=(const queue &);
+    public:
+# endif
+	
 	/* IODevice interface */
 	ssize_t write(size_t , const void *, size_t) __MPT_OVERRIDE;
 	ssize_t read(size_t , void *, size_t) __MPT_OVERRIDE;
